@@ -350,6 +350,11 @@ pub fn data(r: &mut Rng, flags: Option<u8>, max_data: usize) -> SData {
 
 pub fn secret(r: &mut Rng) -> Vec<u8> {
     const L: [usize; 14] = [0, 1, 15, 16, 17, 47, 48, 49, 50, 55, 56, 57, 58, 64];
+    if r.chance(1, 10) {
+        // secrets as people type them into configuration files
+        let t: &[u8] = *r.pick(&[&b"secret"[..], b"hex:deadbeef00", b"hex:00", b"hex:0123456789abcdef0123456789abcdef", b"0xdeadbeef", b"base64:AAAAAA==", b"password\n", b"p\xc3\xa4ss wort", b"\"quoted\"", b"$1$salt$hash", b"%s%n", b" "]);
+        return t.to_vec();
+    }
     let n = match r.below(16) {
         0..=10 => *r.pick(&L),
         // around every power of two from 2^6 to 2^12, where fixed-size scratch buffers end
